@@ -83,7 +83,7 @@ def _push_typestate(ctx, R, roles, T):
     want_inner = ("CONCAT", ("STR", ("p", "device_path")), ("c", ","), ("STR", ("call", "builtins.int", (("p", "st_mode"),), ())))
     ok = st is not None and st[0] == "call" and st[1] == ".encode" and st[2][0] == want_inner and (len(st[2]) == 1 or (st[2][1][0] == "c" and st[2][1][1] in UTF8)) and "size" not in sb
     R.check(ok, "PUSH-events", q + "|SEND-payload", "SEND carries '<device_path>,<int(st_mode)>' utf-8 encoded", "SEND carries %s; expected '{},{}'.format(device_path, int(st_mode)).encode('utf-8')" % (show(st) if st else "nothing"), f.loc(sn.ast))
-    R.check(not sn.loops and g.dominates([sn], dn) and g.dominates([sn], en), "PUSH-events", q + "|SEND-first", "SEND is sent once, before any DATA and DONE", "SEND is not sent exactly once before DATA/DONE", f.loc(sn.ast))
+    R.check(not g.in_cycle(sn) and g.dominates([sn], dn) and g.dominates([sn], en), "PUSH-events", q + "|SEND-first", "SEND is sent once, before any DATA and DONE", "SEND is not sent exactly once before DATA/DONE", f.loc(sn.ast))
     # chunk loop
     if not dn.loops:
         R.fail("CEO-push", q + "|loop", "DATA is not sent from a loop: only one chunk of the file is transferred", f.loc(dn.ast))
@@ -126,7 +126,7 @@ def _push_typestate(ctx, R, roles, T):
     good_k = kt is not None and mc is not None and mc.is_property and (kt == ("attr", ("p", f.params[0]), "max_chunk_size") or kt == want_k2 or kt == _subst_self(want_k2, selft, ("p", f.params[0])))
     R.check(good_k, "CEO-push", q + "|read-size", "chunks are read with the device's max_chunk_size", "the chunk size requested is %s, not max_chunk_size" % (show(kt) if kt else "?"), f.loc(pn.ast))
     # DONE
-    R.check(not en.loops and en not in inside and dn not in g.reach([en], exc=False) and g.dominates([head], en), "PUSH-events", q + "|DONE-after-data", "DONE is sent once, after the chunk loop", "DONE is not sent exactly once after all DATA", f.loc(en.ast))
+    R.check(not g.in_cycle(en) and en not in inside and dn not in g.reach([en], exc=False) and g.dominates([head], en), "PUSH-events", q + "|DONE-after-data", "DONE is sent once, after the chunk loop", "DONE is not sent exactly once after all DATA", f.loc(en.ast))
     zt = T.term(f, en, eb.get("size")) if eb.get("size") is not None else None
     now = ("call", "builtins.int", (("call", "time.time", (), ()),), ())
     from ..terms import alts_of
@@ -153,6 +153,8 @@ def _push_typestate(ctx, R, roles, T):
             lab = "true" if any(fa[0][0] == "eq" and fa[1] is True for fa in df.edge_facts(tn, "true")) else "false"
             starts = [d for d, l in g.succ[tn] if l == lab]
             ok = ok and en not in g.reach(starts, avoid=asg, exc=False, include_start=True)
+    if zt and zt[0] == "ite" and alts == {("p", "mtime"), now}:
+        ok = True          # the conditional term above already says: int(time.time()) exactly when mtime == 0
     R.check(ok, "PUSH-events", q + "|DONE-now-iff-zero", "the current time is substituted exactly when mtime == 0", "the substitution of the current time is not governed by `mtime == 0`", f.loc(en.ast))
     # same transaction objects on all three sends
     for n, c, b, cid in sends:
@@ -448,7 +450,7 @@ def _push_public(ctx, R, roles, T):
     for n, c in shells:
         facts = df.facts(n)
         isdir = any(fa[0][0] == "truthy" and fa[1] is True and "local_path_is_dir" in fa[0][1] for fa in facts)
-        R.check(isdir and not n.loops, "PUSH", q + "|mkdir", "the target directory is created only for directory pushes, once", "the mkdir shell command is not governed by local_path_is_dir", f.loc(n.ast))
+        R.check(isdir and not g.in_cycle(n), "PUSH", q + "|mkdir", "the target directory is created only for directory pushes, once", "the mkdir shell command is not governed by local_path_is_dir", f.loc(n.ast))
 
 
 def _maxdata_sites(ctx, R, roles, T):
